@@ -24,6 +24,28 @@ func genCase(t *rapid.T) arith.Case {
 		c.Ctx = gen.Context(t, 400) // beyond the 128-digit tables
 	}
 	arith.FillOperands(t, &c)
+	if gen.Pick(t, 2, "plainpower") == 1 {
+		// an exact k-th power of a root drawn uniformly among the roots of 1..P digits (the shaped
+		// digit patterns above favour 99..9, 10..0 and the like), at an exponent that keeps it exact
+		k := 2
+		if c.Op == "cbrt" {
+			k = 3
+		}
+		n := rapid.IntRange(1, int(c.Ctx.P)).Draw(t, "pplen")
+		if gen.Pick(t, 2, "ppfull") == 0 {
+			n = int(c.Ctx.P) // a root that uses the whole precision
+		}
+		if n > 30 {
+			n = rapid.IntRange(1, 30).Draw(t, "pplen2")
+		}
+		r := gen.DigitsN(t, n, 9, "pproot") // random digits
+		rb, _ := new(big.Int).SetString(r, 10)
+		if rb.Sign() == 0 {
+			rb.SetInt64(7)
+		}
+		v := new(big.Int).Exp(rb, big.NewInt(int64(k)), nil)
+		c.X = core.Dec{Coeff: v.String(), Exp: int32(k * rapid.IntRange(-20, 20).Draw(t, "ppexp")), Neg: c.Op == "cbrt" && rapid.Bool().Draw(t, "ppneg")}
+	}
 	if c.X.Coeff == "0" {
 		c.X.Coeff = "2"
 	}
